@@ -596,7 +596,9 @@ func (r *Run) hook(kind, site int) bool {
 				r.aborting.Store(true)
 				return true
 			}
-		case kYield, kHost:
+		case kHost:
+			preempt = true // explicit yield of a harness task (retry loops)
+		case kYield:
 			if r.isHot(site) && r.yieldsLeft.Load() > 0 {
 				r.yieldsLeft.Add(-1)
 				preempt = true
@@ -827,6 +829,38 @@ func (r *Run) Finish() {
 		r.Finished = true
 		r.aborting.Store(true)
 	}
+}
+
+// Rearm arms a new cancellation fault k operations from now (histories with
+// several cancelled evaluations).
+//
+//go:norace
+func (r *Run) Rearm(cancel func(), k int64) {
+	r.Cancelled.Store(false)
+	r.Returned.Store(false)
+	r.wantCancel.Store(false)
+	r.cancelQuiesceDone = false
+	r.cancelFn = cancel
+	r.CancelAtOp = r.totalOps.Load() + k
+	r.CancelOnIdle = true
+}
+
+// Disarm removes a pending cancellation fault.
+//
+//go:norace
+func (r *Run) Disarm() {
+	r.cancelFn = nil
+	r.CancelAtOp, r.CancelAtHook, r.CancelAtTime, r.CancelOnIdle = 0, 0, 0, false
+	r.wantCancel.Store(false)
+}
+
+// Finish2 ends the run unconditionally (the history is over).
+//
+//go:norace
+func (r *Run) Finish2() {
+	r.Disarm()
+	r.Finished = true
+	r.aborting.Store(true)
 }
 
 // CancelNow lets a workload request cancellation at the next quiescent point.
